@@ -308,9 +308,9 @@ func (g *gen) fltE(d int) string {
 		}
 		return atom() + " - (" + g.fltE(d-1) + " - 1)"
 	case 5:
-		if g.noRightNest {
+		if !include("qf1005-regrouped-multiplication") {
 			// a product as operand: x*y*x*y instead of (x*y)*(x*y) differs in the last bits
-			excluded("right_nested_nonassociative_operand")
+			excluded("float_product_regrouped")
 			return atom()
 		}
 		return atom() + " * (" + g.fltE(d-1) + " * 0.1)"
@@ -373,9 +373,9 @@ var shapes = []shape{
 	{check: "S1001", name: "range-copy", build: func(g *gen) (string, string) {
 		extra := g.pick("0", "0", "1")
 		size := "len(xs)+" + extra
-		if includeKnown() && g.n(4) == 0 {
+		if include("s1001-destination-shorter-than-source") && g.n(4) == 0 {
 			size = "2" // recorded finding s1001-destination-shorter-than-source
-		} else if !includeKnown() {
+		} else if !include("s1001-destination-shorter-than-source") {
 			excluded("s1001_destination_may_be_shorter")
 		}
 		loop := g.pick(
@@ -395,7 +395,7 @@ var shapes = []shape{
 		px := x
 		if isBinary(x) {
 			px = "(" + x + ")" // "true == a < b" would not type-check
-			if !includeKnown() {
+			if !include("s1002-unparenthesised-operand") {
 				// recorded finding s1002-unparenthesised-operand: "a == b == false" is rewritten to "!a == b"
 				excluded("s1002_binary_operand_without_parentheses")
 				x = px
@@ -519,9 +519,9 @@ var shapes = []shape{
 	}},
 	{check: "S1018", name: "slide", build: func(g *gen) (string, string) {
 		guard := "\tif off > len(xs) {\n\t\toff = len(xs)\n\t}\n\tn := len(xs) - off\n"
-		if includeKnown() && g.n(3) == 0 {
+		if include("s1018-count-or-offset-out-of-range") && g.n(3) == 0 {
 			guard = "\tn := " + g.intE(1) + "\n" // recorded finding s1018-count-or-offset-out-of-range
-		} else if !includeKnown() {
+		} else if !include("s1018-count-or-offset-out-of-range") {
 			excluded("s1018_count_or_offset_unguarded")
 		}
 		return "[]int", "\toff := (" + g.intE(1) + ") & 3\n" + guard + "\tfor i := 0; i < n; i++ {\n\t\txs[i] = xs[off+i]\n\t}\n\treturn xs\n"
@@ -555,15 +555,15 @@ var shapes = []shape{
 			arg = g.bytesE()
 		default:
 			arg = "Strg{" + g.strE(1) + "}"
-			if includeKnown() && g.n(2) == 0 {
+			if include("s1025-stringer-that-is-also-error") && g.n(2) == 0 {
 				arg = "ES{" + g.strE(1) + "}" // recorded finding s1025-stringer-that-is-also-error
-			} else if !includeKnown() {
+			} else if !include("s1025-stringer-that-is-also-error") {
 				excluded("s1025_stringer_that_is_also_error")
 			}
 		}
 		call := f + `.Sprintf("%s", ` + arg + ")"
 		form := g.n(5)
-		if form >= 3 && !includeKnown() {
+		if form >= 3 && !include("replacement-not-parenthesised-for-context") {
 			// recorded finding replacement-not-parenthesised-for-context: Sprintf("%s", a+b)[i:] becomes a+b[i:]
 			excluded("s1025_result_sliced_or_indexed")
 			form = 0
@@ -592,7 +592,7 @@ var shapes = []shape{
 		if g.n(2) == 0 {
 			return "string", pre + "\treturn string(" + recv + ".Bytes()) + t\n"
 		}
-		if !includeKnown() {
+		if !include("s1030-bytes-differs-from-copy") {
 			// recorded finding s1030-bytes-aliases-buffer: []byte(buf.String()) is a fresh non-nil slice, buf.Bytes() is not
 			excluded("s1030_bytes_of_string")
 			return "string", pre + "\treturn string(" + recv + ".Bytes())\n"
@@ -600,7 +600,7 @@ var shapes = []shape{
 		return "[]byte", pre + "\treturn []byte(" + recv + ".String())\n"
 	}},
 	{check: "S1033", name: "guarded-delete", build: func(g *gen) (string, string) {
-		if !includeKnown() {
+		if !include("s1033-key-evaluated-once") {
 			// recorded finding s1033-key-evaluated-once: the guard's key expression is dropped
 			excluded("s1033_key_with_side_effects")
 			g.pure++
@@ -610,10 +610,10 @@ var shapes = []shape{
 		return "int", "\tif m == nil {\n\t\treturn -1\n\t}\n\tif _, ok := m[" + k + "]; ok {\n\t\tdelete(m, " + k + ")\n\t}\n\treturn len(m)\n"
 	}},
 	{check: "S1034", name: "type-switch", build: func(g *gen) (string, string) {
-		if includeKnown() && g.n(3) == 0 {
+		if include("s1034-assignment-to-switched-variable") && g.n(3) == 0 {
 			// recorded finding s1034-assignment-to-switched-variable
 			return "int", "\tswitch v.(type) {\n\tcase int:\n\t\tn := v.(int)\n\t\tv = \"s\"\n\t\treturn n + len(v.(string))\n\t}\n\treturn -1\n"
-		} else if !includeKnown() {
+		} else if !include("s1034-assignment-to-switched-variable") {
 			excluded("s1034_switched_variable_assigned")
 		}
 		return "int", "\tswitch v.(type) {\n\tcase int:\n\t\treturn v.(int) + " + g.intE(1) + "\n\tcase string:\n\t\treturn len(v.(string))\n\tcase nil:\n\t\treturn -2\n\t}\n\treturn -1\n"
@@ -665,9 +665,9 @@ var shapes = []shape{
 		}
 		g.low = true
 		x := "!(" + inner + ")"
-		if includeKnown() && g.n(6) == 0 {
+		if include("qf1001-negation-under-unary-operator") && g.n(6) == 0 {
 			return "bool", "\treturn !" + x + "\n" // recorded finding qf1001-negation-under-unary-operator
-		} else if !includeKnown() {
+		} else if !include("qf1001-negation-under-unary-operator") {
 			excluded("qf1001_operand_of_unary_operator")
 		}
 		switch g.n(5) {
@@ -706,9 +706,9 @@ var shapes = []shape{
 		x := g.intE(1)
 		els := g.pick(" else {\n\t\tr = 3\n\t}", "")
 		two := "2"
-		if includeKnown() && g.n(4) == 0 {
+		if include("tagged-switch-duplicate-case") && g.n(4) == 0 {
 			two = "1" // recorded finding tagged-switch-duplicate-case
-		} else if !includeKnown() {
+		} else if !include("tagged-switch-duplicate-case") {
 			excluded("tagged_switch_duplicate_constant")
 		}
 		return "int", "\tr := 0\n\tif " + x + " == 1 {\n\t\tr = 1\n\t} else if " + x + " == " + two + " || " + x + " == (b) {\n\t\tr = 2\n\t}" + els + "\n\treturn r\n"
@@ -729,7 +729,7 @@ var shapes = []shape{
 		done()
 		call := g.q("math") + ".Pow(" + x + ", " + g.pick("2", "3", "2", "1", "0") + ")"
 		form := g.n(4)
-		if form >= 1 && !includeKnown() {
+		if form >= 1 && !include("replacement-not-parenthesised-for-context") {
 			// recorded finding replacement-not-parenthesised-for-context: 2 / math.Pow(x, 2) becomes 2 / x * x
 			excluded("qf1005_call_is_operand")
 			form = 0
@@ -801,7 +801,7 @@ var shapes = []shape{
 		call := f + "." + fn + args
 		sb := ""
 		form := g.n(5)
-		if form == 4 && !includeKnown() {
+		if form == 4 && !include("qf1012-address-of-unaddressable-receiver") {
 			// recorded finding qf1012-address-of-unaddressable-receiver
 			excluded("qf1012_receiver_not_addressable")
 			form = 3
@@ -851,14 +851,14 @@ func (in *instance) nontrivialHoles() bool { return in.Trace || in.Multi || in.L
 
 func buildInstance(t *rapid.T, idx int, sh *shape) *instance {
 	g := &gen{t: t, imports: map[string]string{}}
-	g.noRightNest = !includeKnown()
+	g.noRightNest = !include("simplify-parentheses-changes-structure")
 	if sh.aliasing {
 		switch g.n(6) {
 		case 0:
 			g.alias = 1
 		case 1:
 			g.alias = 2
-			if !includeKnown() {
+			if !include("fix-names-shadowed-package") {
 				// recorded finding fix-names-shadowed-package: replacement text spells the package name
 				excluded("shadowed_package_name")
 				g.alias = 1
